@@ -652,7 +652,7 @@ impl Engine for C10 {
         let bound = if tier == Tier::Quick { 2 } else { 3 };
         Describe {
             level: "model_checking",
-            rule: format!("scenario: table t with one flushed batch and one batch in the open buffer (+ a second table), then concurrently actor F = force_flush (partition_combine_factor 0: every flush also compacts; 4: no compaction), actor Q = one query from {{SELECT id, SELECT x (a column the new partition lacks), SELECT id, y, SELECT *, COUNT(1), a query on evicted / reopened columns}} and optionally actor I = one ingestion request carrying a third batch for t and the first rows of a table that does not exist yet. The three actors are real database threads parked at the sync points compiled into wal_flush (begin, frozen, per table batched / sub-partitioned, batched, partition files written, partitions persisted, compaction begin / before swap / after swap / catalogue updated, compacted, catalogue persisted, orphans deleted, end), run_query (snapshot taken, before each partition, before each disk read) and ingest_efficient (begin, end). EVERY schedule 'run actor X to its next sync point' with at most {} context switches (one less in the scenarios with three actors) is executed (depth-first with replay). Oracle: the query returns Ok; its rows equal the content of a prefix of the acknowledged batch log (every batch whole, all batches acknowledged before the query started included); no database thread panics; all actors complete; afterwards SELECT id returns every acknowledged row once, for t and for the newly created table. Non-trivial: schedules with at least one switch; distinct by the sequence of sync points observed. LOCK LEVEL (second engine, /verif/harness-sched): the table core (Table, Partition, ColumnHandle, Lru, DiskReadScheduler signatures) of a mechanical copy of /repo's working tree is compiled against shuttle's Mutex / RwLock / atomics; threads F (freeze under the ingestion lock, batch, make evictable, optionally plan + compact all partitions), I (one ingestion under the ingestion lock), Q (Table::snapshot; one or two of them) and E (evict everything evictable) run as shuttle tasks and a depth-first scheduler enumerates, with replay and a divergence check, EVERY interleaving of their lock acquisitions / releases and atomic accesses with at most {} preemptions ({} in the four-thread scenario). Oracle per snapshot: row ranges are contiguous from 0 without overlap, cover a whole number of requests, include everything acknowledged before the snapshot started, and resident id columns hold exactly the ids of their range; afterwards the quiescent snapshot holds every acknowledged row once.", bound, if tier == Tier::Quick { 2 } else { 3 }, if tier == Tier::Quick { 1 } else { 2 }),
+            rule: format!("scenario: table t with one flushed batch and one batch in the open buffer (+ a second table), then concurrently actor F = force_flush (partition_combine_factor 0: every flush also compacts; 4: no compaction), actor Q = one query from {{SELECT id, SELECT x (a column the new partition lacks), SELECT id, y, SELECT *, COUNT(1), a query on evicted / reopened columns}} and optionally actor I = one ingestion request carrying a third batch for t and the first rows of a table that does not exist yet. The three actors are real database threads parked at the sync points compiled into wal_flush (begin, frozen, per table batched / sub-partitioned, batched, partition files written, partitions persisted, compaction begin / before swap / after swap / catalogue updated, compacted, catalogue persisted, orphans deleted, end), run_query (snapshot taken, before each partition, before each disk read) and ingest_efficient (begin, end). EVERY schedule 'run actor X to its next sync point' with at most {} context switches (one less in the scenarios with three actors) is executed (depth-first with replay). Oracle: the query returns Ok; its rows equal the content of a prefix of the acknowledged batch log (every batch whole, all batches acknowledged before the query started included); no database thread panics; all actors complete; afterwards SELECT id returns every acknowledged row once, for t and for the newly created table. Non-trivial: schedules with at least one switch; distinct by the sequence of sync points observed. LOCK LEVEL (second engine, /verif/harness-sched): the table core (Table, Partition, ColumnHandle, Lru, DiskReadScheduler signatures) of a mechanical copy of /repo's working tree is compiled against shuttle's Mutex / RwLock / atomics; threads F (freeze under the ingestion lock, batch, make evictable, optionally plan + compact all partitions), I (one ingestion under the ingestion lock), Q (Table::snapshot; one or two of them) and E (evict everything evictable) run as shuttle tasks and a depth-first scheduler enumerates, with replay and a divergence check, EVERY interleaving of their lock acquisitions / releases and atomic accesses with at most {} preemptions ({} in the four-thread scenario). Three more scenarios read the column of an evicted partition through Partition::get_cols / DiskReadScheduler::get_or_load (two readers, a reader and an eviction, two readers and an eviction; the store is an in-memory stand-in that always returns the column): every reader must get the stored values, no schedule may deadlock or spin without end (a thread chosen 60 times in a row while another is enabled is a spinner and has to let the other run; an execution of more than 50 000 decisions is a livelock). Oracle per snapshot: row ranges are contiguous from 0 without overlap, cover a whole number of requests, include everything acknowledged before the snapshot started, and resident id columns hold exactly the ids of their range; afterwards the quiescent snapshot holds every acknowledged row once.", bound, if tier == Tier::Quick { 2 } else { 3 }, if tier == Tier::Quick { 1 } else { 2 }),
             assumptions: vec![
                 "interleavings are explored at sync-point granularity; lock-level interleavings between two sync points are taken as they come".into(),
                 "an actor that does not reach its next sync point within the patience window is treated as blocked by a parked actor and left running; only a schedule in which the actors never complete counts as a hang".into(),
@@ -727,13 +727,16 @@ impl Engine for C10 {
 // ---------------------------------------------------------------------------------------------
 
 const LSCHED: &str = "/verif/target-sched/debug/lsched";
-pub const LOCK_SCENARIOS: [&str; 6] = [
+pub const LOCK_SCENARIOS: [&str; 9] = [
     "flush+query",
     "flush+ingest+query",
     "flush+compaction+query",
     "flush+compaction+ingest+query",
     "flush+compaction+evict+query",
     "flush+ingest+two-queries",
+    "load+load",
+    "load+evict",
+    "load+load+evict",
 ];
 
 fn run_lock_level(tier: Tier, shard: usize, nshards: usize, out: &mut ShardResult) {
